@@ -1,6 +1,7 @@
 package bt
 
 import (
+	"strings"
 	"fmt"
 	"io"
 	"os"
@@ -20,14 +21,36 @@ type CrashProgram struct {
 	// Restarts: after these op indices the service is killed and the program continues on a
 	// fresh service started on the image (repeated crash-restart cycles).
 	Restarts []int `json:"restarts"`
+	// Kills: the process is killed INSIDE request Op, at the Nth instrumented point it passes (if it
+	// passes that many), and the program continues on a fresh service started on the image taken
+	// there — with the request either wholly present or wholly absent, whichever the image shows.
+	Kills []Kill `json:"kills,omitempty"`
+	// KilledAt is filled in by a run: where the kills took effect.
+	KilledAt []string `json:"killed_at,omitempty"`
 }
 
-var crashTables = []string{"p/tables/t", "p/tables/u", "q/tables/t", "q/tables/u"}
+type Kill struct {
+	Op  int `json:"op"`
+	Nth int `json:"nth"`
+}
+
+// crashTables: every table a generated program can name.
+func crashTables() (out []string) {
+	for _, p := range Parents {
+		for _, id := range IDs {
+			out = append(out, TableName(p, id))
+		}
+	}
+	return
+}
 
 // DumpOps read everything a client can observe.
 func DumpOps() []*Op {
-	ops := []*Op{{Kind: "list", Name: "p"}, {Kind: "list", Name: "q"}}
-	for _, t := range crashTables {
+	var ops []*Op
+	for _, p := range Parents {
+		ops = append(ops, &Op{Kind: "list", Name: p})
+	}
+	for _, t := range crashTables() {
 		ops = append(ops, &Op{Kind: "get", Name: t}, &Op{Kind: "read", Name: t})
 	}
 	return ops
@@ -110,12 +133,28 @@ func RunCrash(p *CrashProgram) (lines, impl []string, mids []MidImage) {
 	env := NewEnv("leveldb-disk", dir)
 	cur := -1
 	armed := false
+	killAt := map[int]int{}
+	for _, k := range p.Kills {
+		killAt[k.Op] = k.Nth
+	}
+	nth := 0
+	killImg, killPoint := "", ""
+	var killDump []string
 	bttest.VerifCrashPoint = func(point string) {
-		if !armed {
+		if !armed || killImg != "" {
+			// (after the kill the process no longer exists: what the rest of the request does is not an image)
 			return
 		}
 		armed = false
-		mids = append(mids, MidImage{Op: cur, Point: point, Dump: recoverDump(dir, env.now)})
+		d := recoverDump(dir, env.now)
+		mids = append(mids, MidImage{Op: cur, Point: point, Dump: d})
+		if n, ok := killAt[cur]; ok && n == nth && killImg == "" {
+			if img, err := os.MkdirTemp(ScratchRoot(), "verif-bt-crash-"); err == nil && copyDir(dir, img) == nil {
+				dirs = append(dirs, img)
+				killImg, killPoint, killDump = img, point, d
+			}
+		}
+		nth++
 		armed = true
 	}
 	defer func() { bttest.VerifCrashPoint = nil }()
@@ -129,16 +168,43 @@ func RunCrash(p *CrashProgram) (lines, impl []string, mids []MidImage) {
 		}
 		return
 	}()
+	same := func(a, b []string) bool { return strings.Join(a, "\n") == strings.Join(b, "\n") }
+	prevDump := recoverDump(dir, env.now)
 	for i, op := range p.Ops {
 		cur = i
+		nth = 0
+		killImg = ""
 		armed = true
 		r := env.Exec(op)
 		armed = false
+		after := recoverDump(dir, env.now)
+		if killImg != "" {
+			// killed inside the request: the client got no answer; what the image shows decides whether
+			// the request happened (anything else is neither-nor, reported by the comparison of the dump)
+			now := env.now
+			env.Close()
+			if same(killDump, prevDump) && !same(killDump, after) {
+				lines = append(lines, fmt.Sprintf("bt clock %d", now)) // the request did not happen
+				impl = append(impl, "ok")
+			} else {
+				lines = append(lines, op.Line())
+				impl = append(impl, r)
+			}
+			p.KilledAt = append(p.KilledAt, fmt.Sprintf("request %d at %s", i, killPoint))
+			lines = append(lines, dumpLines...)
+			impl = append(impl, killDump...)
+			prevDump = killDump
+			dir = killImg
+			env = NewEnv("leveldb-disk", dir)
+			env.now = now
+			continue
+		}
 		lines = append(lines, op.Line())
 		impl = append(impl, r)
 		// image at the request boundary
 		lines = append(lines, dumpLines...)
-		impl = append(impl, recoverDump(dir, env.now)...)
+		impl = append(impl, after...)
+		prevDump = after
 		if restart[i] {
 			// kill: the process goes away without closing anything; continue on the image
 			img, err := os.MkdirTemp(ScratchRoot(), "verif-bt-crash-")
@@ -174,6 +240,15 @@ func GenCrash(r *core.Rng) *CrashProgram {
 	for i := range p.Ops {
 		if r.Chance(1, 8) {
 			p.Restarts = append(p.Restarts, i)
+		}
+	}
+	// kills inside the requests that rewrite what is on disk
+	for i, o := range p.Ops {
+		switch o.Kind {
+		case "create", "delete", "modify", "droprange":
+			if r.Chance(1, 4) {
+				p.Kills = append(p.Kills, Kill{Op: i, Nth: r.Intn(3)})
+			}
 		}
 	}
 	return p
